@@ -480,3 +480,18 @@ Lemma complete_example :
   cp s = CDone /\ final_status s = ERROR /\
   trace s = [ScStart 0; ScStart 1; ScFinish 0 FAILURE; NonFatal 1; ScFinish 1 ERROR; ScStart 2; NonFatal 2; ScFinish 2 ERROR].
 Proof. vm_compute. repeat split; reflexivity. Qed.
+
+Lemma cli_zero_exit_means_no_abort l : cli_exit_code l = 0 ->
+  (forall x, In x l -> cli_aborts x = false) /\ exit_code (cli_engine_events l) = 0.
+Proof.
+  unfold cli_exit_code. destruct (existsb cli_aborts l) eqn:E; [discriminate|]. intros H. split; auto.
+  intros x Hx. destruct (cli_aborts x) eqn:Ex; auto.
+  assert (existsb cli_aborts l = true) by (apply existsb_exists; eauto). congruence.
+Qed.
+
+Lemma cli_fatal_error_exits_nonzero l : In CFatalError l \/ In CHandlerRaises l -> cli_exit_code l = 1.
+Proof.
+  intros H. unfold cli_exit_code.
+  assert (existsb cli_aborts l = true) by (apply existsb_exists; destruct H; eexists; split; eauto).
+  rewrite H0. reflexivity.
+Qed.
